@@ -378,6 +378,40 @@ fn make_exec<P: Property>(p: &P, verif_root: &Path) -> Exec<P> {
     }
 }
 
+/// Second-stage minimisation: property-specific candidates (`simplify`), taken greedily while the candidate still
+/// fails with a signature that is not an open known finding.  Returns the minimal case and its own failure.
+fn minimise<P: Property>(p: &P, exec: &mut Exec<P>, case: P::Case, fallback: Fail, open_sigs: &[String]) -> (P::Case, Fail) {
+    let mut case = case;
+    let mut budget = 3000usize;
+    // only candidates failing with the SAME signature are taken, so minimisation cannot slide into another defect
+    let want = fallback.sig.clone();
+    'outer: loop {
+        for cand in p.simplify(&case) {
+            if budget == 0 {
+                break 'outer;
+            }
+            budget -= 1;
+            let mut scratch = Stats::default();
+            let (v, _) = eval_case(p, exec, &cand, &mut scratch);
+            if let Verdict::Fail(f) = v {
+                if !open_sigs.iter().any(|s| *s == f.sig) && (f.sig == want || want == "flaky") {
+                    case = cand;
+                    continue 'outer;
+                }
+            }
+        }
+        break;
+    }
+    // re-evaluate the minimal case to get its own signature/message
+    let mut scratch = Stats::default();
+    let (v, _) = eval_case(p, exec, &case, &mut scratch);
+    let fail = match v {
+        Verdict::Fail(f) => f,
+        _ => fallback,
+    };
+    (case, fail)
+}
+
 fn run_shard<P: Property>(
     p: Arc<P>,
     tier: Tier,
@@ -401,7 +435,9 @@ fn run_shard<P: Property>(
                 if open_sigs.iter().any(|s| *s == f.sig) {
                     *st.known_hits.entry(f.sig.clone()).or_default() += 1;
                 } else {
-                    return (st, Some(Failure { shard, case, fail: f }));
+                    // fixed cases get the second-stage minimisation too (whole corpus files are large)
+                    let (case, fail) = minimise(&*p, &mut exec, case, f, &open_sigs);
+                    return (st, Some(Failure { shard, case, fail }));
                 }
             }
         }
@@ -452,6 +488,14 @@ fn run_shard<P: Property>(
                         }
                         Ok(())
                     } else {
+                        // while shrinking, a candidate failing with a different signature is another defect: not taken
+                        if failed_cell.get() {
+                            if let Some(first) = last_fail.lock().unwrap().as_ref() {
+                                if first.sig != f.sig {
+                                    return Ok(());
+                                }
+                            }
+                        }
                         failed_cell.set(true);
                         let msg = f.msg.clone();
                         *last_fail.lock().unwrap() = Some(f);
@@ -468,33 +512,8 @@ fn run_shard<P: Property>(
     match res {
         Ok(()) => (st, None),
         Err(TestError::Fail(_, case)) => {
-            // second-stage minimisation (property-specific candidates, greedy)
-            let mut case = case;
-            let mut budget = 3000usize;
-            'outer: loop {
-                for cand in p.simplify(&case) {
-                    if budget == 0 {
-                        break 'outer;
-                    }
-                    budget -= 1;
-                    let mut scratch = Stats::default();
-                    let (v, _) = eval_case(&*p, &mut exec, &cand, &mut scratch);
-                    if let Verdict::Fail(f) = v {
-                        if !open_sigs.iter().any(|s| *s == f.sig) {
-                            case = cand;
-                            continue 'outer;
-                        }
-                    }
-                }
-                break;
-            }
-            // re-evaluate the minimal case to get its own signature/message
-            let mut scratch = Stats::default();
-            let (v, _) = eval_case(&*p, &mut exec, &case, &mut scratch);
-            let fail = match v {
-                Verdict::Fail(f) => f,
-                _ => last_fail.lock().unwrap().clone().unwrap_or(Fail { sig: "flaky".into(), msg: "minimal case did not fail on re-evaluation".into() }),
-            };
+            let fallback = last_fail.lock().unwrap().clone().unwrap_or(Fail { sig: "flaky".into(), msg: "minimal case did not fail on re-evaluation".into() });
+            let (case, fail) = minimise(&*p, &mut exec, case, fallback, &open_sigs);
             (st, Some(Failure { shard, case, fail }))
         }
         Err(TestError::Abort(reason)) => {
